@@ -11,6 +11,7 @@ import (
 
 	structform "github.com/elastic/go-structform"
 	"github.com/elastic/go-structform/gotype"
+	sfjson "github.com/elastic/go-structform/json"
 
 	"verif/engines/common"
 	"verif/model"
@@ -95,13 +96,24 @@ func encoders(c *simkit.Choices, x *simkit.Ctx) *simkit.Violation {
 		}
 		return nil
 	}
+	// JSON encoders get a drawn option setting (the same for the new instance)
+	jopts := c.N(8)
+	mkEnc := func(w *simkit.Writer) structform.Visitor {
+		raw := cd.NewVisitor(w)
+		if jv, ok := raw.(*sfjson.Visitor); ok {
+			jv.SetEscapeHTML(jopts&1 == 0)
+			jv.SetExplicitRadixPoint(jopts&2 != 0)
+			jv.SetIgnoreInvalidFloat(jopts&4 != 0)
+		}
+		return raw
+	}
 	w := simkit.NewWriter()
 	w.Clock = &x.Clock
 	var v *simkit.Violation
 	var reusedOut, freshOut []byte
 	var reusedErr, freshErr error
 	pi := simkit.Guard(func() {
-		raw := cd.NewVisitor(w)
+		raw := mkEnc(w)
 		enc := structform.EnsureExtVisitor(raw)
 		for i, ops := range hist {
 			if err := encode(enc, ops); err != nil {
@@ -133,7 +145,7 @@ func encoders(c *simkit.Choices, x *simkit.Ctx) *simkit.Violation {
 		return nil
 	}
 	fw := simkit.NewWriter()
-	if pi := simkit.Guard(func() { freshErr = encode(structform.EnsureExtVisitor(cd.NewVisitor(fw)), probe) }); pi != nil {
+	if pi := simkit.Guard(func() { freshErr = encode(structform.EnsureExtVisitor(mkEnc(fw)), probe) }); pi != nil {
 		return nil // a fresh encoder panics on the probe: not a reuse question
 	}
 	freshOut = fw.Buf
